@@ -240,7 +240,7 @@ contract(_P + "parse#items", params={"self": "DoctestParser", "string": "str", "
 contract("xdoctest.doctest_example:DocTest.__init__",
          params={"self": "DocTest", "docsrc": "str", "modpath": "Maybe[str]", "callname": "Maybe[str]", "num": "int", "lineno": "int",
                  "fpath": "Maybe[str]", "block_type": "Maybe[str]", "mode": "str"},
-         modifies=["obj(self)"],
+         modifies=["obj(self)"], raises={"AssertionError?": None},
          ensures=[("stores-the-line", "self.lineno == lineno"), ("stores-the-index", "self.num == num"),
                   ("stores-the-text", "self.docsrc == docsrc")],
          props=["C08"],
@@ -251,6 +251,7 @@ contract("xdoctest.doctest_example:DocTest.__init__",
 contract("xdoctest.core:parse_freeform_docstr_examples.doctest_from_parts",
          params={"parts": "reclist[DoctestPart]", "num": "int", "curr_offset": "int", "docsrc": "str"}, returns="DocTest",
          requires=[("some-part", "len(parts) > 0")],
+         raises={"AssertionError?": None},
          ensures=[("line-of-the-doctest", "result.lineno == lineno + curr_offset"),
                   ("numbered", "result.num == num")],
          props=["C08"],
@@ -292,3 +293,56 @@ contract("xdoctest.core:parse_freeform_docstr_examples#offsets",
          note="freeform with asone=True: one doctest per docstring; its line is lineno + the number of docstring lines (text lines and "
               "skipped special-block parts) before its first kept part",
          sentinel=("offset-always-zero", "True == False"))
+
+
+# ------------------------------------------------------------------------ C07.google / C08.google: one doctest per example block
+tuple_record("BlockBody", docsrc="str", offset="int")
+tuple_record("GoogleBlock", type="str", block="BlockBody")
+contract("xdoctest.docstr.docscrape_google:split_google_docblocks", params={"docstr": "str"}, returns="reclist[GoogleBlock]",
+         trusted=True, raises={"MalformedDocstr?": None, "Exception*?": None},
+         note="assumed here: the (label, (text, line offset of the label)) blocks of a google-style docstring, in order")
+from pyvc.contracts import CONTRACTS as _CONTRACTS
+if "xdoctest.doctest_example:DocTest._parse" not in _CONTRACTS:      # contracts/doctest_example.py declares it too
+    contract("xdoctest.doctest_example:DocTest._parse", params={"self": "DocTest"}, trusted=True, raises={"Exception*?": None},
+             modifies=["obj(self)"], note="assumed here: parses the text of the doctest into parts (C13/C14)")
+_ISEX = "(b.type.startswith('Example') or b.type.startswith('Doctest') or b.type.startswith('Script') or b.type.startswith('Benchmark'))"
+_DT = "ev_arg('DocTest.__init__', 0, '%s')"
+contract("xdoctest.core:parse_google_docstr_examples#blocks",
+         params={"docstr": "str", "callname": "Maybe[str]", "modpath": "Maybe[str]", "lineno": "int", "fpath": "Maybe[str]",
+                 "eager_parse": "bool"},
+         raises={"MalformedDocstr?": None, "Exception*?": None},
+         loops={0: LoopSpec(header="blocks", types={"example_blocks": "idxlist[blocks]"},
+                            invariants=[("the-example-blocks-so-far",
+                                         "example_blocks == S.true_indices([" + _ISEX + " for b in blocks[:_i0]])")]),
+                1: LoopSpec(header="enumerate(example_blocks)", invariants=[], modifies=[],
+                            body_post=[("one-doctest-per-example-block",
+                                        "ev_count('DocTest.__init__') == 1 and " + _DT % "docsrc" + " == docsrc and "
+                                        + _DT % "num" + " == _i1 and " + _DT % "block_type" + " == type and "
+                                        + _DT % "lineno" + " == lineno + offset + 1 and "
+                                        "ev_count('yield') == 1 and ev_arg('yield', 0, 'value') is example")])},
+         props=["C07", "C08"],
+         opts={"native": False,
+               "exit_facts": [("all-example-blocks-in-order",
+                               "example_blocks == S.true_indices([" + _ISEX + " for b in blocks])")]},
+         note="google style: exactly the blocks labelled Example / Doctest / Script / Benchmark become doctests, in order, numbered "
+              "0, 1, ..; each starts on the line after its label (lineno + offset + 1)",
+         sentinel=("numbered-from-one", "True == False"))
+
+
+contract("xdoctest.core:parse_auto_docstr_examples#dispatch",
+         params={"docstr": "str"},
+         raises={"DoctestParseError?": None, "MalformedDocstr?": None},
+         loops={0: LoopSpec(header="parse_google_docstr_examples(docstr, *args, **kwargs)", modifies=[],
+                            invariants=[("counted", "n_found == _i0")],
+                            body_post=[("google-doctests-are-passed-on", "ev_count('yield') == 1 and ev_arg('yield', 0, 'value') is example")]),
+                1: LoopSpec(header="parse_freeform_docstr_examples(docstr, *args, **kwargs)", modifies=[], invariants=[],
+                            body_post=[("freeform-doctests-are-passed-on", "ev_count('yield') == 1 and ev_arg('yield', 0, 'value') is example")])},
+         props=["C07"],
+         opts={"native": False,
+               "exit_facts": [("google-first", "ev_count('parse_google_docstr_examples') == 1"),
+                              ("freeform-exactly-when-google-found-nothing",
+                               "ev_count('parse_freeform_docstr_examples') == (1 if n_found == 0 else 0)")]},
+         note="auto style: the google blocks when there are any, otherwise (none found, or the google parser failed before yielding) "
+              "freeform; a callee generator is seen as returning its whole list or raising before the first item (a failure after the "
+              "first item is not modelled); *args / **kwargs empty",
+         sentinel=("always-freeform", "True == False"))
